@@ -420,12 +420,16 @@ def sprtM (cfg : Cfg) (x : List Rat) : List XR :=
       (prefixSums x)
   | none => x.map (fun _ => XR.fin cfg.t)
 
-/-- the (truncated) alternative means of `wald_sprt`, literally -/
-def sprtE (cfg : Cfg) (x : List Rat) : List XR :=
+/-- the alternative means of `wald_sprt` truncated above at `u`, literally -/
+def sprtE0 (cfg : Cfg) (x : List Rat) : List XR :=
   match cfg.N with
   | some n => mapIdxFrom (fun j s => XR.npmin (.fin cfg.u)
       ((XR.fin ((n : Rat) * sprtEta cfg - s)) / (XR.fin ((n : Rat) - (j : Rat) + 1)))) 1 (prefixSums x)
   | none => x.map (fun _ => XR.fin (sprtEta cfg))
+
+/-- ... and not below the null mean (`etas = np.maximum(etas, m)`), literally -/
+def sprtE (cfg : Cfg) (x : List Rat) : List XR :=
+  ((sprtE0 cfg x).zip (sprtM cfg x)).map (fun (e, mj) => XR.npmax e mj)
 
 /-- one factor `[x eta/mu + (u−x)(u−eta)/(u−mu)]/u` in IEEE arithmetic -/
 def sprtFactor (u xj : Rat) (e mj : XR) : XR :=
@@ -441,8 +445,10 @@ def sprtMasked (cfg : Cfg) (x : List Rat) : List XR :=
 
 theorem sprtM_length (cfg : Cfg) (x : List Rat) : (sprtM cfg x).length = x.length := by
   unfold sprtM; cases cfg.N <;> simp [mapIdxFrom_length, prefixSums, prefixSumsFrom_length]
+theorem sprtE0_length (cfg : Cfg) (x : List Rat) : (sprtE0 cfg x).length = x.length := by
+  unfold sprtE0; cases cfg.N <;> simp [mapIdxFrom_length, prefixSums, prefixSumsFrom_length]
 theorem sprtE_length (cfg : Cfg) (x : List Rat) : (sprtE cfg x).length = x.length := by
-  unfold sprtE; cases cfg.N <;> simp [mapIdxFrom_length, prefixSums, prefixSumsFrom_length]
+  simp [sprtE, sprtE0_length, sprtM_length]
 theorem sprtFactors_length (cfg : Cfg) (x : List Rat) : (sprtFactors cfg x).length = x.length := by
   simp [sprtFactors, sprtM_length, sprtE_length]
 theorem sprtMasked_length (cfg : Cfg) (x : List Rat) : (sprtMasked cfg x).length = x.length := by
@@ -463,7 +469,7 @@ theorem sprt_eq (cfg : Cfg) (x : List Rat) (hne : x ≠ []) (hx : ∀ a ∈ x, 0
       rw [h] at this
       exact absurd (List.length_eq_zero_iff.mp this.symm) hne
     | cons _ _ => rfl
-  unfold sprtMasked sprtFactors sprtM sprtE sprtEta sprtFactor at *
+  unfold sprtMasked sprtFactors sprtE sprtM sprtE0 sprtEta sprtFactor at *
   unfold waldSprt
   cases hN : cfg.N with
   | none =>
@@ -483,11 +489,15 @@ theorem sprt_eq (cfg : Cfg) (x : List Rat) (hne : x ≠ []) (hx : ∀ a ∈ x, 0
 /-- the null mean before draw `j+1` (0-based index `j`): `(N t − Σ_{k<j} x_k)/(N − (j+1) + 1)`, or `t` -/
 def sprtMu (cfg : Cfg) (x : List Rat) (j : Nat) : Rat := mu cfg.N cfg.t (psum x j) (j + 1)
 
-/-- the alternative mean before draw `j+1`: `min(u, (N eta − Σ_{k<j} x_k)/(N − (j+1) + 1))`, or `eta` -/
-def sprtEt (cfg : Cfg) (x : List Rat) (j : Nat) : Rat :=
+/-- the alternative mean before draw `j+1` truncated above:
+`min(u, (N eta − Σ_{k<j} x_k)/(N − (j+1) + 1))`, or `eta` -/
+def sprtEt0 (cfg : Cfg) (x : List Rat) (j : Nat) : Rat :=
   match cfg.N with
   | some n => min cfg.u (mu (some n) (sprtEta cfg) (psum x j) (j + 1))
   | none => sprtEta cfg
+
+/-- the alternative mean actually used before draw `j+1`: not below the null mean -/
+def sprtEt (cfg : Cfg) (x : List Rat) (j : Nat) : Rat := max (sprtEt0 cfg x j) (sprtMu cfg x j)
 
 /-- `x.length ≤ N` for finite `N` -/
 def FitsN (N : Option Nat) (len : Nat) : Prop := ∀ n, N = some n → len ≤ n
@@ -502,15 +512,27 @@ theorem sprtM_getElem? (cfg : Cfg) (x : List Rat) (hfit : FitsN cfg.N x.length) 
     simp only [mapIdxFrom_getElem?, prefixSums, prefixSumsFrom_getElem? x 0 j hj, Option.map_some, zero_add]
     rw [fin_div _ _ (by rw [Nat.add_comm]; exact ne_of_gt (den_pos hjn)), mu_some, Nat.add_comm 1 j]
 
-theorem sprtE_getElem? (cfg : Cfg) (x : List Rat) (hfit : FitsN cfg.N x.length) (j : Nat) (hj : j < x.length) :
-    (sprtE cfg x)[j]? = some (XR.fin (sprtEt cfg x j)) := by
-  unfold sprtE sprtEt
+theorem sprtE0_getElem? (cfg : Cfg) (x : List Rat) (hfit : FitsN cfg.N x.length) (j : Nat) (hj : j < x.length) :
+    (sprtE0 cfg x)[j]? = some (XR.fin (sprtEt0 cfg x j)) := by
+  unfold sprtE0 sprtEt0
   cases hN : cfg.N with
   | none => simp only [List.getElem?_map, List.getElem?_eq_getElem hj, Option.map_some]
   | some n =>
     have hjn : j + 1 ≤ n := by have := hfit n hN; omega
     simp only [mapIdxFrom_getElem?, prefixSums, prefixSumsFrom_getElem? x 0 j hj, Option.map_some, zero_add]
     rw [fin_div _ _ (by rw [Nat.add_comm]; exact ne_of_gt (den_pos hjn)), npmin_fin_fin, mu_some, Nat.add_comm 1 j]
+
+theorem npmax_fin_fin' (a b : Rat) : XR.npmax (.fin a) (.fin b) = .fin (max a b) := by
+  simp only [XR.npmax, XR.isNan_fin, Bool.or_self, Bool.false_eq_true, ↓reduceIte, XR.lt_fin, decide_eq_true_eq]
+  by_cases h : a < b
+  · rw [if_pos h, max_eq_right h.le]
+  · rw [if_neg h, max_eq_left (not_lt.mp h)]
+
+theorem sprtE_getElem? (cfg : Cfg) (x : List Rat) (hfit : FitsN cfg.N x.length) (j : Nat) (hj : j < x.length) :
+    (sprtE cfg x)[j]? = some (XR.fin (sprtEt cfg x j)) := by
+  unfold sprtE sprtEt
+  rw [List.getElem?_map, getElem?_zip_some (sprtE0_getElem? cfg x hfit j hj) (sprtM_getElem? cfg x hfit j hj)]
+  simp only [Option.map_some, npmax_fin_fin']
 
 theorem sprtFactors_getElem? (cfg : Cfg) (x : List Rat) (hfit : FitsN cfg.N x.length) (j : Nat) (a : Rat)
     (ha : x[j]? = some a) :
@@ -564,28 +586,28 @@ theorem sprt_regular_before (cfg : Cfg) (x : List Rat) (G : SprtGuard cfg x) (j 
     (h0 : 0 < sprtMu cfg x j) (hu : sprtMu cfg x j < cfg.u) (i : Nat) (hi : i ≤ j) :
     0 < sprtMu cfg x i ∧ sprtMu cfg x i < cfg.u ∧ 0 ≤ sprtEt cfg x i ∧ sprtEt cfg x i ≤ cfg.u := by
   have hupos : 0 < cfg.u := lt_trans G.t_pos G.t_lt_u
-  unfold sprtMu sprtEt at *
-  cases hN : cfg.N with
-  | none =>
-    simp only [mu_none]
-    exact ⟨G.t_pos, G.t_lt_u, le_trans (le_of_lt G.t_pos) G.t_le_eta, G.eta_le_u⟩
-  | some n =>
-    rw [hN] at h0 hu
-    have hjn : j + 1 ≤ n := by have := G.fits n hN; omega
-    have hin : i + 1 ≤ n := by omega
-    have hx0 : ∀ a ∈ x, 0 ≤ a := fun a ha => (G.range a ha).1
-    have hxu : ∀ a ∈ x, a ≤ cfg.u := fun a ha => (G.range a ha).2
-    have hmi : 0 < mu (some n) cfg.t (psum x i) (i + 1) := by
-      have := mu_pos_of_later (n := n) hx0 cfg.t 0 hi hin hjn (by simpa using h0)
-      simpa using this
-    refine ⟨hmi, mu_lt_u_of_later (le_of_lt hupos) hxu cfg.t hi hjn hu, ?_, min_le_left _ _⟩
-    apply le_min (le_of_lt hupos)
-    rw [mu_pos_iff hin] at hmi
-    apply le_of_lt
-    rw [mu_pos_iff hin]
-    have : (n : Rat) * cfg.t ≤ (n : Rat) * sprtEta cfg :=
-      mul_le_mul_of_nonneg_left G.t_le_eta (by positivity)
-    linarith
+  have key : 0 < sprtMu cfg x i ∧ sprtMu cfg x i < cfg.u := by
+    unfold sprtMu at *
+    cases hN : cfg.N with
+    | none =>
+      simp only [mu_none]
+      exact ⟨G.t_pos, G.t_lt_u⟩
+    | some n =>
+      rw [hN] at h0 hu
+      have hjn : j + 1 ≤ n := by have := G.fits n hN; omega
+      have hin : i + 1 ≤ n := by omega
+      have hx0 : ∀ a ∈ x, 0 ≤ a := fun a ha => (G.range a ha).1
+      have hxu : ∀ a ∈ x, a ≤ cfg.u := fun a ha => (G.range a ha).2
+      have hmi : 0 < mu (some n) cfg.t (psum x i) (i + 1) := by
+        have := mu_pos_of_later (n := n) hx0 cfg.t 0 hi hin hjn (by simpa using h0)
+        simpa using this
+      exact ⟨hmi, mu_lt_u_of_later (le_of_lt hupos) hxu cfg.t hi hjn hu⟩
+  have he0 : sprtEt0 cfg x i ≤ cfg.u := by
+    unfold sprtEt0
+    cases hN : cfg.N with
+    | none => exact G.eta_le_u
+    | some n => exact min_le_left _ _
+  exact ⟨key.1, key.2, le_trans key.1.le (le_max_right _ _), max_le he0 key.2.le⟩
 
 theorem sprtMasked_good (cfg : Cfg) (x : List Rat) (G : SprtGuard cfg x) : ∀ T ∈ sprtMasked cfg x, Good T := by
   apply getElem?_mem_all
